@@ -17,7 +17,8 @@ struct is_class_or_union
     static const bool value = sizeof(is_class_or_union_tester<T>(0)) == sizeof(char);
 };
 
-template <int I>
+/// discriminators are 32-bit unsigned on the wire: the tag type has to hold values above INT_MAX
+template <unsigned int I>
 struct int2type
 {
     enum { value = I };
